@@ -107,6 +107,14 @@ def run_pairs(R, cases, M, judge=True):
             for op in VC.OPS3:
                 reqs.append(["cbin", op, I.spec(c.ga), I.spec(c.gb)] + [v.text for v in probes])
                 idx.append((c, op, results[op], probes))
+    # the decidable hypotheses of the union-level theorems (goodc, sorted_c), evaluated by the model on every operand
+    ops_ = sorted({I.spec(g) for c, *_ in idx for g in (c.ga, c.gb)})
+    for sp, h in zip(ops_, M.many([["chyp", sp] for sp in ops_]) if ops_ else []):
+        R.count("operands_seen_by_model")
+        if h == ["true", "true"]: R.count("operands_meeting_theorem_hypotheses")
+        elif h[:1] == ["true"]: R.count("operands_good_but_not_sorted")
+        elif h == ["badoperand"]: R.count("operands_not_parsed_by_model")
+        else: R.count("operands_outside_hypotheses(local_label_or_improper)")
     mres = M.many(reqs) if reqs else []
     for (c, op, r, probes), m in zip(idx, mres):
         case = dict(a=c.a, b=c.b, op=op)
